@@ -16,7 +16,7 @@ from ..core import CaseResult, case_key
 ID = "C07"
 LEVEL = "exploration"
 RULE = (
-    "film {3 boxes, ellipse, circle, tee, notched, resampled 101} x holes {none, circle, two, box} x terminals {none, two} x max_edge_length x min_points x smoothing x xi; "
+    "film {3 boxes, ellipse, circle, tee, notched, resampled 101} x holes {none, circle, two, box, L-shaped (centroid outside the hole)} x terminals {none, two} x max_edge_length x min_points x smoothing x xi; "
     "every triangle (orientation, containment), boundary edge (on outline), site (clipped Voronoi area under guards) and edge (clipped Voronoi face under guards) of every mesh. "
     "Non-trivial = mesh has interior sites passing the guards; distinct = case parameters."
 )
@@ -30,8 +30,8 @@ TOLERANCES = {"area": 1e-9, "voronoi": 1e-9}
 
 def bound(tier):
     return {
-        "quick": "8 films x 4 hole sets (where they fit) x terminals {none,two} at (max_edge 1.0, smooth 0), + settings sweep {0.6, min_points 300, smooth 2, xi 0.5/2} on 4 films",
-        "thorough": "8 films x 4 hole sets x [max_edge {1.0,0.6,0.4} x smooth {0,2,20} x xi {0.5,1,2} + min_points 300 (2 settings) + no terminals] = 960 meshes",
+        "quick": "8 films x 5 hole sets (where they fit) x terminals {none,two} at (max_edge 1.0, smooth 0), + settings sweep {0.6, min_points 300, smooth 2, xi 0.5/2} on 4 films",
+        "thorough": "8 films x 5 hole sets x [max_edge {1.0,0.6,0.4} x smooth {0,2,20} x xi {0.5,1,2} + min_points 300 (2 settings) + no terminals] = 960 meshes",
     }[tier]
 
 
@@ -40,7 +40,7 @@ def floors(tier):
 
 
 FILMS = ["box64", "box33", "box81", "ellipse", "circle", "tee", "notched", "resampled"]
-HOLES = ["none", "circle", "two", "box"]
+HOLES = ["none", "circle", "two", "box", "ell"]
 
 
 HISTORIES = ("remesh_finer", "remesh_coarser", "translated_inplace", "copy_translated", "translation_context", "terminal_resized", "terminals_replaced", "smoothed_derived", "reloaded", "reloaded_compressed")
@@ -104,6 +104,11 @@ def build_device(case):
         holes = [P("h1", points=circle(0.35, points=14, center=(-0.9, 0.15))), P("h2", points=ellipse(0.5, 0.3, points=16, center=(1.0, -0.2), angle=25))]
     elif h == "box":
         holes = [P("h1", points=box(0.9, 0.5, points=14, center=(0.2, -0.1), angle=15))]
+    elif h == "ell":
+        # a non-convex hole whose centroid lies outside it (an L made of two thin arms)
+        sc = 0.6 if small else 1.0
+        holes = [P("h1", points=sc * np.array([(-0.3, -0.6), (0.9, -0.6), (0.9, -0.3), (0.0, -0.3), (0.0, 0.6), (-0.3, 0.6)]) + np.array([0.2, 0.05])).resample(31)]
+        holes[0].name = "h1"
     xs = film.points[:, 0]
     terms = []
     if case["terminals"]:
@@ -372,6 +377,23 @@ def run_case(case):
                 res.violate("terminal-length", **ctx, detail=dict(det, terminal=term.name, got=got, want=want, max_boundary_edge=float(blens.max())))
             if got <= 0:
                 res.violate("terminal-length-zero", **ctx, detail=det)
+            # the documented rule, recomputed from this mesh alone: the boundary edges (incidence count 1) whose centre lies in the terminal polygon
+            mids = 0.5 * (bend[:, 0] + bend[:, 1]) * xi
+            dmid = shapely.distance(shapely.points(mids), tp.boundary)
+            if dmid.min() > 1e-7:
+                inside = shapely.contains(tp, shapely.points(mids))
+                exact = float(blens[inside].sum())
+                res.count("terminal_lengths_recomputed")
+                res.residual("terminal_length_exact", abs(got - exact) / max(exact, 1e-12))
+                if abs(got - exact) > 1e-9 * max(exact, 1.0):
+                    res.violate("terminal-length-is-not-that-of-its-boundary-edges", **ctx, detail=dict(det, terminal=term.name, got=got, want=exact))
+                sidx = np.asarray(info[term.name].site_indices)
+                bsites = np.unique(uniq[bmask])
+                dsite = shapely.distance(shapely.points(p[bsites] * xi), tp.boundary)
+                if dsite.min() > 1e-7:
+                    want_sites = bsites[shapely.contains(tp, shapely.points(p[bsites] * xi))]
+                    if not np.array_equal(np.sort(sidx), np.sort(want_sites)):
+                        res.violate("terminal-sites-are-not-the-boundary-sites-inside-the-terminal", **ctx, detail=dict(det, terminal=term.name, got=len(sidx), want=len(want_sites)))
     res.nontrivial = nchecked > 5
     res.outcome = f"meshed;smooth={case['smooth']}"
     return res
